@@ -461,6 +461,47 @@ def init (sysEmail : Bool) : State :=
 
 def run (prog : Prog) (sysEmail : Bool) (es : List Event) : State := es.foldl (step prog) (init sysEmail)
 
+/-! ### Process-group kill: the compiler is stopped half way
+
+`killDuring` kills the shell only.  `EventG.killGroup` kills the whole process group while the
+compiler runs: `next/code` keeps PART of the output for the tree of HEAD (no stamp; files of an earlier
+compile of another tree that were still there make it `mixed`), the invocation is dead and the
+flock is free at once.  For any other command the group kill is `kill` (the command had no effect
+yet; its completed variant is `killDuring` + the orphan's step). -/
+
+/-- Half a compile of the tree of HEAD into `next/code`. -/
+def spoilDir (g : G) (d : Dir) : Dir :=
+  match d.head with
+  | some h =>
+    let t := (commitAt g.store h).tree
+    { d with built := false, dirty := true, code := t, mixed := d.mixed || (d.dirty && d.code != t) }
+  | none => { d with built := false, dirty := true }
+
+def spoilG (g : G) : G := { g with next := g.next.map (spoilDir g) }
+
+inductive EventG
+  | base (e : Event)
+  | killGroup (pid : Nat)
+  deriving DecidableEq, Repr
+
+/-- does the group kill hit a running compiler that holds the lock? -/
+def groupHits (prog : Prog) (s : State) (pid : Nat) : Option Proc :=
+  match findProc s.procs pid with
+  | some p =>
+    match instrAt prog p.pc with
+    | some i => if p.alive && i.cmd == .compile && s.g.lock == some pid && !s.dying.contains pid then some p else none
+    | none => none
+  | none => none
+
+def stepG (prog : Prog) (s : State) : EventG → State
+  | .base e => step prog s e
+  | .killGroup pid =>
+    match groupHits prog s pid with
+    | some p => { s with g := { spoilG s.g with lock := none }, procs := replaceProc s.procs { p with alive := false, exit := none } }
+    | none => step prog s (.kill pid)
+
+def runG (prog : Prog) (sysEmail : Bool) (es : List EventG) : State := es.foldl (stepG prog) (init sysEmail)
+
 /-! ### Undisturbed run of one new invocation -/
 
 def quiescent (s : State) : Bool := s.procs.all (!·.alive)
